@@ -31,8 +31,19 @@ theorem grow_recordInst (s : St) (g i : Nat) (x : Inst) (k : Nat) : Grow s (reco
         · split <;> rfl
     · exact h0
 
+theorem grow_cancelGen (s : St) (g : Nat) : Grow s (cancelGen s g) :=
+  foldl_grow (fun s i => cancelOpt s g (some i)) (fun s i => grow_cancelOpt s g (some i)) _ s
+
+theorem grow_cancelAll (s : St) : Grow s (cancelAll s) := foldl_grow cancelGen grow_cancelGen _ s
+
 theorem grow_step (s s' : St) (e : Ev) (hs : step s e = some s') : Grow s s' := by
   cases e with
+  | cancelroot =>
+    simp only [step] at hs
+    split at hs
+    · simp at hs; subst hs
+      exact (grow_congr (s := s) (s' := { s with ctx := some 0 }) rfl rfl).trans (grow_cancelAll _)
+    · simp at hs
   | nilnext k =>
     simp only [step] at hs
     split at hs
@@ -55,7 +66,8 @@ theorem grow_step (s s' : St) (e : Ev) (hs : step s e = some s') : Grow s s' := 
     split at hs
     · rename_i op hc
       simp at hs; subst hs
-      exact (grow_execOp s op).trans (grow_congr rfl rfl)
+      exact (grow_congr (preOp_keys s op) (preOp_fields s op).1).trans
+        ((grow_execOp (preOp s op) op).trans (grow_congr rfl rfl))
     · simp at hs
   | ctor k d =>
     simp only [step] at hs
